@@ -14,9 +14,16 @@
    tree with fixes/C19-write-errors.patch.  [nofail o]: no call fails (short
    reads and writes are allowed).  [world0 fs]: fresh process on file system fs.
 
-   Not modelled: "-" (stdin/stdout), interactive passwords, option parsing and
-   output-name derivation, the 1 TiB limit, close(2) results, EINTR retries. *)
-From AsconV Require Import Model.Clim Proofs.ClimP Proofs.ClimSumP.
+   [Main_args0 K bufsiz cfg o fx oc a t w] is main() of asconcrypt after getopt:
+   a = the parsed options (direction or none, -p, -k, -o, INPUT names), t = the
+   terminal (is it one; what getpass returns), oc k = the k-th close(2) of an output
+   descriptor reports an error, fx = which of the two proposed patches are in (as_is: none;
+   m_close: fixes/C19-close-errors.patch, m_pwlen: fixes/C19-typed-password-length.patch).  stdin/stdout ("-") are files
+   with reserved names (main_args moves them in and out).
+
+   Not modelled: getopt itself, "-" given more than once, directories, the 1 TiB
+   limit, EINTR retries, close(2) results of read descriptors. *)
+From AsconV Require Import Model.Clim Proofs.ClimP Proofs.ClimSumP Proofs.ClimArgsP.
 Local Open Scope nat_scope.
 
 (* Round trip, for every content, size, password (< 1024 bytes), random salt / key /
@@ -100,6 +107,87 @@ Theorem C19_generate_write_refuted :
     fails_at o CWrite 0 /\ main_generate shipped o (world0 []) kf = (w1, 0) /\ fs_get (w_fs w1) kf = Some [10%N].
 Proof. exact generate_write_fault_refuted. Qed.
 
+(* ---- main() of asconcrypt ---------------------------------------------------------------
+   Invalid argument vectors - no INPUT, -p together with -k, -o with several inputs, names
+   with and without ".ascon" when neither -e nor -d is given, no -p/-k and no terminal -
+   end with status 1 and one message before any call is made: the world is unchanged but
+   for the message. *)
+Theorem C19_args_rejected : forall (K : crypto) bufsiz cfg o fx oc a t w, arg_error a t = true ->
+  exists e, Main_args0 K bufsiz cfg o fx oc a t w = (add_err w e, 1).
+Proof. exact args_rejected. Qed.
+
+(* With -e or -d and -p, main() is Main_crypt (to which C19_roundtrip ... C19_faults apply) on the
+   pairs (input, derived output): -o, else input ++ ".ascon" / input minus ".ascon" /
+   input ++ ".decrypted", cut to BUFSIZ-1 bytes; "-" is stdin / stdout. *)
+Theorem C19_args_explicit : forall (K : crypto) bufsiz cfg o fx oc a t w enc pw, m_close fx = false ->
+  no_inputs a = false -> o_with_many a = false -> a_mode a = Some enc -> a_p a = Some pw -> a_k a = None ->
+  Main_args0 K bufsiz cfg o fx oc a t w =
+  Main_crypt K bufsiz cfg o enc (PwArg pw) w (map (fun i => (in_name i, out_name bufsiz enc (a_o a) i)) (a_in a)).
+Proof. exact args_explicit. Qed.
+
+(* Neither -e nor -d: all names end in ".ascon" = -d; none does = -e; one of each = rejected. *)
+Theorem C19_args_detect_decrypt : forall (K : crypto) bufsiz cfg o fx oc a t w,
+  a_mode a = None -> no_inputs a = false -> forallb is_encrypted_filename (a_in a) = true ->
+  Main_args0 K bufsiz cfg o fx oc a t w = Main_args0 K bufsiz cfg o fx oc (with_mode a (Some false)) t w.
+Proof. exact args_detect_decrypt. Qed.
+Theorem C19_args_detect_encrypt : forall (K : crypto) bufsiz cfg o fx oc a t w,
+  a_mode a = None -> no_inputs a = false -> forallb (fun p => negb (is_encrypted_filename p)) (a_in a) = true ->
+  Main_args0 K bufsiz cfg o fx oc a t w = Main_args0 K bufsiz cfg o fx oc (with_mode a (Some true)) t w.
+Proof. exact args_detect_encrypt. Qed.
+Theorem C19_args_detect_mixture : forall a l1 l2 p q, a_mode a = None -> a_in a = p :: l1 ++ q :: l2 ->
+  is_encrypted_filename p = negb (is_encrypted_filename q) -> snd (direction a) = true.
+Proof. exact args_detect_mixture. Qed.
+
+(* Typed passwords (readpass.c): read_password keeps the first PWSIZ-1 = 1023 bytes of what getpass
+   returned, silently - a run depends on what was typed only through that prefix ... *)
+Theorem C19_tty_truncation : forall (K : crypto) bufsiz cfg o fx oc a w p p', m_pwlen fx = false ->
+  firstn (PWSIZ - 1) (cstr p) = firstn (PWSIZ - 1) (cstr p') ->
+  Main_args0 K bufsiz cfg o fx oc a {| t_tty := true; t_pass := [Some p] |} w =
+  Main_args0 K bufsiz cfg o fx oc a {| t_tty := true; t_pass := [Some p'] |} w.
+Proof. exact tty_truncation. Qed.
+(* ... so "rejects a wrong password" fails for typed passwords of 1024 bytes or more: two different
+   ones that no run can tell apart (with -p, and in a key file, 1024 bytes are refused: EPwTooLong). *)
+Theorem C19_tty_wrong_password_refuted :
+  long_pw 97 <> long_pw 98 /\ length (long_pw 97) = PWSIZ /\
+  firstn (PWSIZ - 1) (cstr (long_pw 97)) = firstn (PWSIZ - 1) (cstr (long_pw 98)).
+Proof. exact tty_wrong_password_refuted. Qed.
+
+(* With fixes/C19-typed-password-length.patch such a password ends the run before anything is touched. *)
+Theorem C19_tty_long_rejected : forall (K : crypto) bufsiz cfg o fx oc a w p rest, m_pwlen fx = true ->
+  a_p a = None -> a_k a = None -> PWSIZ <= length (cstr p) ->
+  exists w', Main_args0 K bufsiz cfg o fx oc a {| t_tty := true; t_pass := Some p :: rest |} w = (w', 1) /\
+             w_fs w' = w_fs w /\ w_cnt w' = w_cnt w.
+Proof. exact tty_long_rejected. Qed.
+
+(* close(2) of an output descriptor.  With the patch: if the k-th such close reports an error the
+   status is non-zero - or fewer than k+1 outputs were closed; and (one pair) a non-zero status
+   leaves no output, whatever failed. *)
+Theorem C19_close_faults : forall (K : crypto) bufsiz cfg o oc enc pw fs files k w' ex kc,
+  oc k = true -> Crypt_files_c K bufsiz cfg o true oc enc pw (world0 fs) files 0 0 = (w', ex, kc) -> ex <> 0 \/ kc <= k.
+Proof. exact close_faults_fixed. Qed.
+Theorem C19_close_fail_clean : forall (K : crypto) bufsiz cfg o cchk oc enc pw w inf outf w' ex kc,
+  Crypt_files_c K bufsiz cfg o cchk oc enc pw w [(inf, outf)] 0 0 = (w', ex, kc) -> ex <> 0 ->
+  fs_get (w_fs w') outf = None \/ w_fs w' = w_fs w.
+Proof. exact close_fail_clean. Qed.
+Theorem C19_generate_close_faults : forall cfg o oc w kf w' ex, oc 0 = true ->
+  main_generate_c cfg o true oc w kf = (w', ex) -> ex <> 0.
+Proof. exact generate_close_fixed. Qed.
+(* The tree as it is ignores the result (fileops.c safe_file_close): same run as without the error,
+   status 0, the output stays although the system reported that it may not have been written. *)
+Theorem C19_close_ignored : forall (K : crypto) bufsiz cfg o oc enc pw files w ex kc,
+  fst (Crypt_files_c K bufsiz cfg o false oc enc pw w files ex kc) = Crypt_files K bufsiz cfg o enc pw w files ex.
+Proof. intros K bufsiz cfg o oc enc pw files. exact (cfc_nochk K bufsiz cfg o oc enc pw files). Qed.
+Theorem C19_close_ignored_refuted :
+  exists (K : crypto) (bufsiz : nat) (o : oracle) (oc : nat -> bool) (pw : bytes) (fs : fsys) (inf encf : path) (w1 : world) (kc : nat),
+    crypto_good K /\ 16 < bufsiz /\ oc 0 = true /\
+    Crypt_files_c K bufsiz fixed o false oc true pw (world0 fs) [(inf, encf)] 0 0 = (w1, 0, kc) /\ 0 < kc /\
+    fs_get (w_fs w1) encf <> None /\ w_err w1 = [].
+Proof. exact close_ignored_refuted. Qed.
+Theorem C19_generate_close_ignored_refuted :
+  exists (o : oracle) (oc : nat -> bool) (kf : path) (w1 : world),
+    oc 0 = true /\ main_generate_c fixed o false oc (world0 []) kf = (w1, 0) /\ fs_get (w_fs w1) kf <> None.
+Proof. exact generate_close_ignored_refuted. Qed.
+
 (* ---- asconsum ---------------------------------------------------------------------
    The four digests are a parameter (state hst, h_init alg, h_upd, h_fin) specified against
    a one-shot function [digest alg]: hash_ok = the incremental interface equals digest on
@@ -177,6 +265,20 @@ Print Assumptions C19_sum_missing.
 Print Assumptions C19_sum_check.
 Print Assumptions C19_sum_check_of_hash.
 Print Assumptions C19_sum_list_read_error_refuted.
+Print Assumptions C19_args_rejected.
+Print Assumptions C19_args_explicit.
+Print Assumptions C19_args_detect_decrypt.
+Print Assumptions C19_args_detect_encrypt.
+Print Assumptions C19_args_detect_mixture.
+Print Assumptions C19_tty_truncation.
+Print Assumptions C19_tty_wrong_password_refuted.
+Print Assumptions C19_tty_long_rejected.
+Print Assumptions C19_close_faults.
+Print Assumptions C19_close_fail_clean.
+Print Assumptions C19_generate_close_faults.
+Print Assumptions C19_close_ignored.
+Print Assumptions C19_close_ignored_refuted.
+Print Assumptions C19_generate_close_ignored_refuted.
 
 (* Non-vacuity: the hypotheses on the cryptography are satisfiable (a toy instance:
    identity encryption with a 16-byte checksum), and on it the model, run with
@@ -204,6 +306,41 @@ Example C19_nonvacuous :
   (let r := ex_decrypt ok_oracle (ex_pw ++ [33%N]) ex_image in
    snd r = 1 /\ fs_get (w_fs (fst r)) ex_out = None /\ w_err (fst r) = [EBadPassword]).
 Proof. exact nonvacuous_runs. Qed.
+
+(* main() on the toy instance: direction from the names, the rejected argument vectors, typed
+   passwords (twice to encrypt, once to decrypt, a typo, no answer), stdin to stdout in both
+   directions, and a failing close of the output with the patch *)
+Example C19_args_nonvacuous :
+  snd xa_encrypted = 0 /\ length xa_image = 96 + 61 /\ w_err (fst xa_encrypted) = [] /\
+  (let r := xa_run as_is never (xa None (Some ex_pw) None None [xa_encname]) no_tty [] [(xa_encname, xa_image)] in
+   snd r = 0 /\ fs_get (w_fs (fst r)) xa_name = Some ex_content) /\
+  (let r := xa_run as_is never (xa None (Some ex_pw) None None [xa_name; xa_encname]) no_tty [] xa_fs in
+   snd r = 1 /\ w_err (fst r) = [EDirection] /\ w_fs (fst r) = xa_fs) /\
+  (let r := xa_run as_is never (xa (Some true) (Some ex_pw) (Some ex_in) None [xa_name]) no_tty [] xa_fs in
+   snd r = 1 /\ w_err (fst r) = [EBothPK] /\ w_fs (fst r) = xa_fs) /\
+  (let r := xa_run as_is never (xa (Some true) (Some ex_pw) None (Some ex_out) [xa_name; xa_name]) no_tty [] xa_fs in
+   snd r = 1 /\ w_err (fst r) = [EOneInput] /\ w_fs (fst r) = xa_fs) /\
+  (let r := xa_run as_is never (xa (Some true) (Some ex_pw) None None []) no_tty [] xa_fs in
+   snd r = 1 /\ w_err (fst r) = [EUsage] /\ w_fs (fst r) = xa_fs) /\
+  (let r := xa_run as_is never (xa (Some true) None None None [xa_name]) no_tty [] xa_fs in
+   snd r = 1 /\ w_err (fst r) = [ENoTerminal] /\ w_fs (fst r) = xa_fs) /\
+  (let r := xa_run as_is never (xa None None None None [xa_name]) (typed [Some ex_pw; Some ex_pw]) [] xa_fs in
+   snd r = 0 /\ fs_get (w_fs (fst r)) xa_encname = Some xa_image) /\
+  (let r := xa_run as_is never (xa None None None None [xa_encname]) (typed [Some ex_pw]) [] [(xa_encname, xa_image)] in
+   snd r = 0 /\ fs_get (w_fs (fst r)) xa_name = Some ex_content) /\
+  (let r := xa_run as_is never (xa None None None None [xa_name]) (typed [Some ex_pw; Some (ex_pw ++ [33%N])]) [] xa_fs in
+   snd r = 1 /\ w_err (fst r) = [EPwMismatch] /\ w_fs (fst r) = xa_fs) /\
+  (let r := xa_run as_is never (xa (Some false) None None None [xa_encname]) (typed [None]) [] [(xa_encname, xa_image)] in
+   snd r = 1 /\ w_err (fst r) = [EUsage]) /\
+  (let r := xa_run as_is never (xa (Some true) (Some ex_pw) None None [dash]) no_tty ex_content [] in
+   snd r = 0 /\ w_out (fst r) = xa_image /\ w_fs (fst r) = []) /\
+  (let r := xa_run as_is never (xa (Some false) (Some ex_pw) None None [dash]) no_tty xa_image [] in
+   snd r = 0 /\ w_out (fst r) = ex_content /\ w_fs (fst r) = []) /\
+  (let r := xa_run as_is never (xa (Some false) (Some ex_pw) None (Some dash) [xa_encname]) no_tty [] [(xa_encname, xa_image)] in
+   snd r = 0 /\ w_out (fst r) = ex_content) /\
+  (let r := xa_run patched first_close (xa (Some true) (Some ex_pw) None None [xa_name]) no_tty [] xa_fs in
+   snd r = 1 /\ fs_get (w_fs (fst r)) xa_encname = None /\ w_err (fst r) = [EPerror]).
+Proof. exact args_nonvacuous_runs. Qed.
 
 (* the same for asconsum: a toy digest satisfies hash_ok; hash mode then check mode on two
    files: all OK; one file modified; one missing; other algorithm; malformed line; empty list *)
